@@ -36,6 +36,11 @@ type Check struct {
 	// Setup, if not nil, is called once per process before the first run
 	// (installing hooks).
 	Setup func()
+
+	// RaceAnywhere makes a race report without frames of the code under test
+	// a violation (site "no-golibs-frame") instead of a harness error.  Only
+	// the kernel's own canary uses it.
+	RaceAnywhere bool
 }
 
 // Stats are accumulated over all runs of a worker.
@@ -77,6 +82,12 @@ type RunCtx struct {
 
 	// Data carries workload state from Run to After.
 	Data any
+
+	// Nondet is set by a workload that deliberately constructed a state whose
+	// outcome the Go runtime chooses at random (a select with two ready
+	// cases): the run is exempt from the determinism recheck and its replay
+	// file is marked so that the driver replays it several times.
+	Nondet bool
 }
 
 // Fail records the first violation of the run.
@@ -116,6 +127,7 @@ type replayFile struct {
 	Seed      uint64   `json:"seed"`
 	Run       uint64   `json:"run"`
 	OrigTape  int      `json:"original_tape_len"`
+	Nondet    bool     `json:"nondeterministic,omitempty"`
 	ShrinkRun int      `json:"shrink_executions"`
 }
 
@@ -254,6 +266,9 @@ func (w *worker) exec(tape *Tape, keepLog bool) *RunCtx {
 		if ne := raceErrors(); ne > w.raceErrs {
 			w.raceErrs = ne
 			site, text := w.readRaceReports()
+			if site == "" && w.c.RaceAnywhere {
+				site = "no-golibs-frame"
+			}
 			switch {
 			case site == "":
 				if rc.HarnessErr == "" {
@@ -455,7 +470,7 @@ func WorkerMain(t *testing.T, c *Check) {
 		w.progress = f
 		defer f.Close()
 	}
-	go w.watchdog(time.Duration(envInt("VERIF_WATCHDOG_S", 20)) * time.Second)
+	go w.watchdog(time.Duration(envInt("VERIF_WATCHDOG_S", 12)) * time.Second)
 
 	res := &workerResult{
 		Property:    c.ID,
@@ -622,7 +637,7 @@ func (w *worker) explore(res *workerResult) {
 				"seed": seed, "run": i, "tape_len": len(rc.Tape.Out), "events": capLines(rc.Log, 120),
 			})
 		}
-		if recheck > 0 && (i/stride)%recheck == 0 {
+		if recheck > 0 && (i/stride)%recheck == 0 && !rc.Nondet {
 			// Determinism spot check: replaying the recorded tape must give
 			// the same event log and verdict.
 			rc2 := w.exec(ReplayTape(rc.Tape.Out), false)
@@ -706,6 +721,7 @@ func (w *worker) reportViolation(res *workerResult, rc *RunCtx, seed, run uint64
 		Seed:      seed,
 		Run:       run,
 		OrigTape:  len(orig),
+		Nondet:    rc.Nondet,
 		ShrinkRun: execs,
 	}
 	dir := os.Getenv("VERIF_REPLAY_DIR")
